@@ -116,7 +116,7 @@ def run(ctx):
     ctx.assumptions += ["Coq part: C04_self_valid_all (rule-free model accepts its own example); the example builder itself is not modelled: this property is decided by generated cases (partial)"]
     ctx.classifiers["example_key_not_escaped"] = lambda case: isinstance(case, dict) and case.get("cls") == "keyescape"
     cases = []     # (label, harness case dict, expected example text or None, class tag)
-    n = 1200 if quick else 24000
+    n = 4000 if quick else 24000
     for _ in range(n):
         w = J.rand_rule_schema(rng, rng.randint(0, 4))
         cases.append(("plain", {"schema": J.print_schema(w, rng)}, J.plain_json(w), None))
@@ -156,8 +156,8 @@ def run(ctx):
                     cases.append(("corpus:" + f, {k: c[k] for k in ("schema", "types", "enums") if k in c}, c.get("expect_example"), None))
     # the type graphs of the C03 check (allOf chains, parents that are also used on their own, additionalProperties types, rule-form references, key shortcuts)
     import check_c03 as C3
-    g3 = C3.allof_stream(rng, 150 if quick else 3000) + C3.rule_form_cases(rng, 150 if quick else 3000)
-    for _ in range(300 if quick else 6000):
+    g3 = C3.allof_stream(rng, 600 if quick else 3000) + C3.rule_form_cases(rng, 600 if quick else 3000)
+    for _ in range(1500 if quick else 6000):
         k = rng.randint(2, 6)
         names, env = C3.gen_types(rng, k)
         root = rng.choice([("ref", [names[-1]], False), ("obj", [("r", False, ("ref", rng.sample(names, min(k, rng.choice([1, 2]))), False)), ("s", True, ("ref", [rng.choice(names)], False))], None, [])])
